@@ -32,6 +32,8 @@ sys.exit(0 if hit else 1)
 PY
     then props="$props $p"; fi
   done
+  # narrow down: keep a property only if one of its units is declared in a touched file (or it is the seed's own)
+  props=$(python3 /verif/tools/props_for_files.py "$s" "$props" $files)
   caught=""; obls=""
   for p in $props; do
     out=$(bin/gvc check $p --tier quick --nomutants 2>&1 | grep -E "^VIOLATION" | head -3)
